@@ -200,3 +200,38 @@ func H17_qos2_window() {
 	}
 	vrtReach("C17.qos2_window")
 }
+
+// H17_peeksize: the framing step between the receive ring and the decoders:
+// for ANY five header bytes (every remaining-length encoding, every boundary
+// value 127/128, 16383/16384, ...) at three ring positions (two of them
+// straddling the end of the ring), peekMessageSize returns the packet type
+// and the total packet size the fixed header announces; a continuation bit in
+// the fourth length byte is an error.
+func H17_peeksize() {
+	svc := &service{}
+	var err error
+	svc.in, err = newBuffer(1)
+	if err != nil {
+		panic(err)
+	}
+	c := []int64{0, svc.in.size - 1, 2*svc.in.size - 3}[vrtChoice("pos", 3)]
+	svc.in.cseq.set(c)
+	svc.in.pseq.set(c)
+	svc.in.pseq.gate = c
+	h := vrtBytesN("h", 5)
+	hh := append([]byte(nil), h...)
+	n, werr := svc.in.Write(hh)
+	vrtAssert("C17.harness_header_written", n == 5 && werr == nil)
+	mtype, total, perr := svc.peekMessageSize()
+	typ, _, remlen, hdr, ok := specFrame(hh)
+	if ok {
+		vrtAssert("C17.peeksize_ok", perr == nil)
+		vrtAssert("C17.peeksize_type", byte(mtype) == typ)
+		vrtAssert("C17.peeksize_total", total == remlen+hdr)
+		vrtReach("C17.peeksize")
+	} else if vrtAnd(vrtAnd(hh[1] >= 0x80, hh[2] >= 0x80), vrtAnd(hh[3] >= 0x80, hh[4] >= 0x80)) {
+		vrtAssert("C17.peeksize_overlong_rejected", perr != nil)
+	}
+	vrtAssert("C17.peeksize_consumes_nothing", svc.in.cseq.get() == c)
+	vrtObserve("peek", total, perr != nil)
+}
